@@ -41,11 +41,12 @@ class Boom(Exception):
     """raised by the harness inside a with-block"""
 
 
-def make_target(kind, policy):
-    cfg = {"generic": dict(GENERIC), "expected_route": b"\x01\x00" if kind != "cip" else b"", "fo_policy": policy.get("fo", "large"),
+def make_target(kind, policy, entropy="os"):
+    cfg = {  # with pinned entropy every open reuses the same connection serial / originator serial: not the library's doing
+           "allow_duplicate_triple": entropy not in (None, "os"),"generic": dict(GENERIC), "expected_route": b"\x01\x00" if kind != "cip" else b"", "fo_policy": policy.get("fo", "large"),
            "session_policy": policy.get("session", "ok"), "fc_policy": policy.get("fc", "ok"), "session_handle": policy.get("handle", 0x5EED0001),
            "session_refuse_handle": policy.get("refuse_handle", 0), "session_refuse_status": policy.get("refuse_status", 1),
-           "lenient_session": policy.get("lenient", False),
+           "lenient_session": policy.get("lenient", False), "fo_refuse": tuple(policy.get("fo_refuse", (0x01, [0x0109]))),
            # connections opened by Forward Open live until Forward Close (or a time-out): un-registering the session does not free them
            "unregister_keeps_connections": True,
            "conn_ids": [0xC0DE0001, 0xC0DE0002, 0xC0DE0003]}
@@ -63,10 +64,16 @@ def make_driver(kind):
 
 
 def run_history(case, fault=None):
-    """-> (discs, ops_performed, info)"""
+    from .. import harness
+    with harness.entropy(case.get("entropy")):
+        return _run_history(case, fault)
+
+
+def _run_history(case, fault=None):
+    """-> (discs, info)"""
     from pycomm3.exceptions import PycommError
     kind = case["driver"]
-    tgt = make_target(kind, case["policy"])
+    tgt = make_target(kind, case["policy"], case.get("entropy"))
     shim = SocketShim(target=tgt, chunks=case["chunks"], fault=fault, budget=400_000)
     install_shim(shim)
     discs = []
@@ -304,8 +311,13 @@ def cases(draw):
                                    {"session": "refuse", "refuse_handle": 0x1234, "refuse_status": 0x69}, {"session": "refuse", "refuse_handle": 0xFFFFFFFF}, {"session": "refuse", "refuse_handle": 0x4321, "lenient": True},
                                    {"session": "refuse", "lenient": True}]))
     policy = dict(policy, handle=draw(st.sampled_from([1, 0x5EED0001, 0xFFFFFFFF])))
+    if policy.get("fo") in ("std", "none"):
+        from ..refplc import CM_EXT_CODES
+        policy["fo_refuse"] = draw(st.one_of(st.sampled_from(CM_EXT_CODES).map(lambda c: [0x01, [c]]), st.sampled_from([[0x08, []], [0x05, []], [0x02, []], [0x01, []]]),
+                                             st.integers(0, 0xFFFF).map(lambda c: [0x01, [c]])))
     chunks = draw(st.sampled_from([[1 << 20], [1 << 20], [1, 2, 3, 500], [7], [3, 1 << 20], [24, 1, 1 << 20]]))
-    return {"driver": kind, "ops": ops, "policy": policy, "chunks": chunks, "rot": draw(st.integers(0, 2)), "stride": 1, "phase": 0}
+    return {"driver": kind, "ops": ops, "policy": policy, "chunks": chunks, "rot": draw(st.integers(0, 2)), "stride": 1, "phase": 0,
+            "entropy": draw(st.sampled_from(["os", "os", "os", "min", "max"]))}
 
 
 def sample_of(c):
@@ -317,10 +329,27 @@ def sample_of(c):
 def plan(tier):
     n = 16 if tier == "quick" else 64
     per = 10 if tier == "quick" else 80
-    return [{"part": "hist", "examples": per} for _ in range(n)]
+    return [{"part": "hist", "examples": per} for _ in range(n)] + [{"part": "refusals", "driver": k} for k in ("cip", "logix", "slc")]
+
+
+def refusal_cases(kind):
+    """whatever status the target refuses the extended Forward Open with, the driver falls back to the standard one"""
+    from ..refplc import CM_EXT_CODES
+    refs = [[0x01, [c]] for c in CM_EXT_CODES] + [[0x01, []], [0x02, []], [0x05, []], [0x08, []], [0x09, []], [0x13, []], [0x26, []], [0xFF, [0x2105]], [0x01, [0x0109, 0x01F4]]]
+    for r in refs:
+        yield {"driver": kind, "ops": [{"op": "open"}, {"op": "read", "i": 0, "v": 1}, {"op": "gconn"}, {"op": "close"}, {"op": "open"}, {"op": "write", "i": 0, "v": 5}],
+               "policy": {"fo": "std", "fo_refuse": r}, "chunks": [1 << 20], "rot": 0, "stride": 1, "phase": 0, "entropy": "os"}
 
 
 def run_job(ctx, job):
+    if job["part"] == "refusals":
+        for case in refusal_cases(job["driver"]):
+            discs, info = run_history(case, None)
+            ctx.case(("refusal", job["driver"], str(case["policy"]["fo_refuse"])), True, ["histories", "policy.refusing", "refusal-sweep"])
+            for d in discs:
+                ctx.violation(d, "hist", case)
+        ctx.exhaustive_parts.append("every tabled connection-manager refusal status for the extended Forward Open")
+        return
     hyp_search(ctx, "hist", cases(), lambda c: check_case(ctx, c), job["examples"], sample_of=sample_of, shrink_budget_s=15 if ctx.tier == "quick" else 120)
 
 
